@@ -145,3 +145,39 @@ func (x *Bool) CompareAndSwap(o, n bool) bool {
 	op("Bool.CompareAndSwap")
 	return x.v.CompareAndSwap(o, n)
 }
+
+// Uintptr mirrors atomic.Uintptr.
+type Uintptr struct{ v atomic.Uintptr }
+
+func (x *Uintptr) Load() uintptr          { op("Uintptr.Load"); return x.v.Load() }
+func (x *Uintptr) Store(v uintptr)        { op("Uintptr.Store"); x.v.Store(v) }
+func (x *Uintptr) Add(d uintptr) uintptr  { op("Uintptr.Add"); return x.v.Add(d) }
+func (x *Uintptr) Swap(v uintptr) uintptr { op("Uintptr.Swap"); return x.v.Swap(v) }
+func (x *Uintptr) CompareAndSwap(o, n uintptr) bool {
+	op("Uintptr.CompareAndSwap")
+	return x.v.CompareAndSwap(o, n)
+}
+
+// Pointer mirrors atomic.Pointer[T].
+type Pointer[T any] struct{ v atomic.Pointer[T] }
+
+func (x *Pointer[T]) Load() *T     { op("Pointer.Load"); return x.v.Load() }
+func (x *Pointer[T]) Store(v *T)   { op("Pointer.Store"); x.v.Store(v) }
+func (x *Pointer[T]) Swap(v *T) *T { op("Pointer.Swap"); return x.v.Swap(v) }
+func (x *Pointer[T]) CompareAndSwap(o, n *T) bool {
+	op("Pointer.CompareAndSwap")
+	return x.v.CompareAndSwap(o, n)
+}
+
+func AndInt32(p *int32, m int32) int32     { op("AndInt32"); return atomic.AndInt32(p, m) }
+func OrInt32(p *int32, m int32) int32      { op("OrInt32"); return atomic.OrInt32(p, m) }
+func AndUint32(p *uint32, m uint32) uint32 { op("AndUint32"); return atomic.AndUint32(p, m) }
+func OrUint32(p *uint32, m uint32) uint32  { op("OrUint32"); return atomic.OrUint32(p, m) }
+func SwapUintptr(p *uintptr, v uintptr) uintptr {
+	op("SwapUintptr")
+	return atomic.SwapUintptr(p, v)
+}
+func CompareAndSwapUintptr(p *uintptr, o, n uintptr) bool {
+	op("CompareAndSwapUintptr")
+	return atomic.CompareAndSwapUintptr(p, o, n)
+}
